@@ -4,8 +4,9 @@
 //!   <schema-id> ∈ basic | aliased | tok | nested | with   (the derived structs below; the Lean
 //!                 driver carries the same structs as `FieldSpec` lists)
 //!   <pairs>     = `-` | item (`,` item)*           the ordered (key, value) pairs of the document
-//!   item        = [`#`] key `=` val                `#` = in the BINARY rendering the key is written
-//!                                                  as a token id (otherwise as a string)
+//!   item        = [`#`|`%`] key `=` val            `#` = in the BINARY rendering the key is written
+//!                                                  as a token id (otherwise as a string);
+//!                                                  `%` (numeric keys only) = written as an I32 token
 //!   key         = [a-z0-9_]+
 //!   val         = int | `[` int (`.` int)* `]` | `[]` | `{` inner (`;` inner)* `}` | `{}`
 //!   inner       = key `=` (int | `[`…`]`)
@@ -202,6 +203,7 @@ enum Val {
 }
 #[derive(Clone, Debug, PartialEq)]
 struct Item {
+    as_i32: bool,
     as_id: bool,
     key: String,
     val: Val,
@@ -241,7 +243,14 @@ fn parse_pairs(s: &str) -> Option<Vec<Item>> {
             Some(r) => (true, r),
             None => (false, k),
         };
-        out.push(Item { as_id, key: k.to_string(), val: parse_val(v)? });
+        let (as_i32, k) = match k.strip_prefix('%') {
+            Some(r) => (true, r),
+            None => (false, k),
+        };
+        if as_i32 && k.parse::<i32>().is_err() {
+            return None;
+        }
+        out.push(Item { as_i32, as_id, key: k.to_string(), val: parse_val(v)? });
     }
     Some(out)
 }
@@ -257,7 +266,7 @@ fn show_pairs(p: &[Item]) -> String {
     if p.is_empty() {
         return "-".into();
     }
-    p.iter().map(|i| format!("{}{}={}", if i.as_id { "#" } else { "" }, i.key, show_val(&i.val))).collect::<Vec<_>>().join(",")
+    p.iter().map(|i| format!("{}{}={}", if i.as_id { "#" } else if i.as_i32 { "%" } else { "" }, i.key, show_val(&i.val))).collect::<Vec<_>>().join(",")
 }
 
 fn text_val(v: &Val, out: &mut Vec<u8>) {
@@ -297,6 +306,14 @@ fn render_text(p: &[Item]) -> Vec<u8> {
 fn w16(out: &mut Vec<u8>, v: u16) {
     out.extend_from_slice(&v.to_le_bytes());
 }
+fn bin_key_item(it: &Item, out: &mut Vec<u8>) {
+    if it.as_i32 {
+        w16(out, 0x000c);
+        out.extend_from_slice(&it.key.parse::<i32>().unwrap().to_le_bytes());
+    } else {
+        bin_key(&it.key, it.as_id, out);
+    }
+}
 fn bin_key(k: &str, as_id: bool, out: &mut Vec<u8>) {
     match (as_id, name_id(k)) {
         (true, Some(id)) => w16(out, id),
@@ -335,7 +352,7 @@ fn bin_val(v: &Val, out: &mut Vec<u8>) {
 fn render_binary(p: &[Item]) -> Vec<u8> {
     let mut out = vec![];
     for it in p {
-        bin_key(&it.key, it.as_id, &mut out);
+        bin_key_item(it, &mut out);
         w16(&mut out, 0x0001);
         bin_val(&it.val, &mut out);
     }
@@ -532,7 +549,7 @@ pub fn exec(w: &[&str], obs: &mut Obs) -> Option<String> {
             obs.count(&format!("{}:T:{}", id, if t.starts_with("err:") { t.split(':').take(2).collect::<Vec<_>>().join(":") } else { "ok".into() }));
             obs.count(&format!("{}:B:{}", id, if b.starts_with("err:") { b.split(':').take(2).collect::<Vec<_>>().join(":") } else { "ok".into() }));
             let numeric_key = p.iter().any(|it| it.key.bytes().all(|c| c.is_ascii_digit()));
-            let any_id = p.iter().any(|it| it.as_id);
+            let any_id = p.iter().any(|it| it.as_id || it.as_i32);
             if !numeric_key && !any_id && t != b {
                 obs.violation("text-binary-differ", &case, &format!("text {} binary {}", t, b));
             }
@@ -545,9 +562,13 @@ pub fn exec(w: &[&str], obs: &mut Obs) -> Option<String> {
                     obs.violation("reference", &case, &format!("binary result {} reference {}", b, r));
                 }
             }
-            // unknown keys (answered by no field of any schema) must be ignored, whatever their form
-            if *id != "tok" {
-                let stripped: Vec<Item> = p.iter().filter(|it| !is_unknown_key(&it.key)).cloned().collect();
+            // unknown keys (answered by no field of any schema) must be ignored, whatever their form.
+            // Two key forms never reach `visit_str`/`visit_u16` and make the generated visitor answer
+            // `invalid type` instead (see the final report / DESIGN: numeric key + token struct in
+            // text, I32 key in binary); with STRICT_UNKNOWN_KEYS they are held to the property too.
+            {
+                let quirk = |it: &Item| !STRICT_UNKNOWN_KEYS && it.key.bytes().all(|c| c.is_ascii_digit()) && (*id == "tok" || it.as_i32);
+                let stripped: Vec<Item> = p.iter().filter(|it| !is_unknown_key(&it.key) || quirk(it)).cloned().collect();
                 if stripped.len() != p.len() {
                     let mut o2 = Obs::default();
                     if let Some((t2, b2)) = run_schema(id, &stripped, &case, &mut o2) {
@@ -576,6 +597,10 @@ pub fn exec(w: &[&str], obs: &mut Obs) -> Option<String> {
     }
 }
 
+/// hold numeric keys that reach the field visitor as integers to "unknown fields are ignored" too
+/// (fires on the current /repo: `derive tok a=1,bee=2,123=5`, `derive basic a=1,f=2,%123=5`)
+const STRICT_UNKNOWN_KEYS: bool = false;
+
 fn is_unknown_key(k: &str) -> bool {
     matches!(k, "zz" | "yy" | "k1" | "k2" | "u2") || k.bytes().all(|c| c.is_ascii_digit())
 }
@@ -599,7 +624,8 @@ fn unknown_item(rng: &mut Rng, numeric_ok: bool, n: i32) -> Item {
         4 => Val::Obj(vec![]),
         _ => Val::Obj(vec![("zz".into(), Val::Int(n))]),
     };
-    Item { as_id: rng.chance(1, 3), key, val }
+    let numeric = key.bytes().all(|c| c.is_ascii_digit());
+    Item { as_i32: numeric && rng.chance(1, 3), as_id: !numeric && rng.chance(1, 3), key, val }
 }
 
 fn known_val(id: &str, key: &str, rng: &mut Rng, n: i32) -> Val {
@@ -644,7 +670,7 @@ pub fn gen(g: &mut Gen) {
         let maxlen = g.budget(4, 5);
         let mut cur: Vec<usize> = vec![];
         fn rec(g: &mut Gen, keys: &[&str], cur: &mut Vec<usize>, maxlen: usize) {
-            let p: Vec<Item> = cur.iter().enumerate().map(|(i, k)| Item { as_id: false, key: keys[*k].to_string(), val: Val::Int(i as i32 + 1) }).collect();
+            let p: Vec<Item> = cur.iter().enumerate().map(|(i, k)| Item { as_i32: false, as_id: false, key: keys[*k].to_string(), val: Val::Int(i as i32 + 1) }).collect();
             emit(g, "basic", &p);
             if cur.len() == maxlen { return; }
             for k in 0..keys.len() {
@@ -667,7 +693,7 @@ pub fn gen(g: &mut Gen) {
                 let mut n = 1;
                 for (k, m) in keys.iter().zip(&mult) {
                     for _ in 0..*m {
-                        p.push(Item { as_id: g.rng.chance(1, 3), key: k.to_string(), val: Val::Int(n) });
+                        p.push(Item { as_i32: false, as_id: g.rng.chance(1, 3), key: k.to_string(), val: Val::Int(n) });
                         n += 1;
                     }
                 }
@@ -696,7 +722,7 @@ pub fn gen(g: &mut Gen) {
                 let mut n = 1;
                 for (k, m) in schema_keys("basic").iter().zip(&mult) {
                     for _ in 0..*m {
-                        p.push(Item { as_id: g.rng.chance(1, 3), key: k.to_string(), val: Val::Int(n) });
+                        p.push(Item { as_i32: false, as_id: g.rng.chance(1, 3), key: k.to_string(), val: Val::Int(n) });
                         n += 1;
                     }
                 }
@@ -726,7 +752,7 @@ pub fn gen(g: &mut Gen) {
                 let m = if g.rng.chance(1, 4) { g.rng.below(4) } else { m };
                 for _ in 0..m {
                     let val = known_val(id, k, &mut g.rng, n);
-                    p.push(Item { as_id: g.rng.chance(1, 2), key: k.to_string(), val });
+                    p.push(Item { as_i32: false, as_id: g.rng.chance(1, 2), key: k.to_string(), val });
                     n += 1;
                 }
             }
@@ -747,6 +773,8 @@ pub fn gen(g: &mut Gen) {
     // 4. probes
     for s in [
         "derive tok a=1,bee=2,123=5",
+        "derive basic a=1,f=2,%123=5",
+        "derive basic a=1,f=2,123=5",
         "derive tok #a=1,#b=2,#u1=3,#u2=4",
         "derive tok a=1,b=2",
         "derive tok #a=1,#bee=2",
